@@ -321,6 +321,18 @@ def run(ctx):
                             fail="--ignore-nothing does not set %s" % fl)
             ok = True
         ctx.require(ok, "R12.3", "ignore-nothing-block", "normalise() expands --ignore-nothing", nm.loc(nm.line))
+        # nothing else in normalise() writes a discovery flag: each flag is exactly what the user gave, plus --ignore-nothing
+        inside = set()
+        if len(ifs) == 1 and pathx.if_parts(ifs[0])[1] is not None:
+            inside = {id(a) for k_ in ("assign", "assignop") for a in thir.find(pathx.if_parts(ifs[0])[1], k_)}
+        stray = []
+        for k_ in ("assign", "assignop"):
+            for a in thir.find(thir.root(nm), k_):
+                lhs = pathx.desc(a["a"]).lstrip("^").split(".")[-1]
+                if re.match(r"^no_\w+_ignore$", lhs) and id(a) not in inside:
+                    stray.append("%s %s %s" % (lhs, a.get("op", "="), pathx.desc(a["b"])[:80]))
+        ctx.require(not stray, "R12.3", "flags-only-from-ignore-nothing", "no discovery flag is derived from other flags (only --ignore-nothing expands)", nm.loc(nm.line), detail=str(stray),
+                    fail="normalise() derives a discovery flag from other options (%s): a flag mix then removes an ignore source none of the given flags names" % stray)
     except Skip:
         pass
 
@@ -370,5 +382,6 @@ def run(ctx):
         ctx.require(src == ["args.filtering.ignore_files"], "R12.5", "explicit-source", "explicit_ignore_files() iterates args.filtering.ignore_files itself", ef.loc(ef.line), detail=str(src))
         from . import c14 as _c14
         _c14.env_table(ctx, "R12.5")
+        _c14.origin_table(ctx, "R12.5")
     except Skip:
         pass
